@@ -21,8 +21,8 @@ def run(ctx):
               "(extents up to 2^40 cells, no memory): flat index in range and equal to that of the clamped coordinate.  (3) clamp above "
               "nearest_neighbour and above linear (box [0,extent-1) in the real domain) over strided<array>: value equals that of an admissible "
               "lattice point / the exact interpolant within the C03 bound.  (4) clamp BELOW both interpolators (interp<clamp<strided<array>>>, random "
-              "sub-boxes of the extents) with real coordinates from 0 up to 4*10^9: value equals the interpolant over the clamped corner cells / the "
+              "sub-boxes of the extents) with real coordinates from 0 up to 9*10^18: value equals the interpolant over the clamped corner cells / the "
               "value at the clamp of a nearest lattice point.  non-trivial: >= 1 component strictly outside the box; distinct = "
               "hash of (instantiation, box/extents, coordinate)"),
         assumptions=["NaN coordinates excluded (as the property states)",
-                     "below an interpolator coordinates are bounded by 2^32: beyond 2^64 the float-to-index conversion is undefined before any layer can clamp"])
+                     "below an interpolator coordinates stay below 2^63: from 2^64 on the float-to-index conversion is undefined before any layer can clamp"])
